@@ -405,6 +405,12 @@ struct url : url_base {
   bool set_host_or_hostname(std::string_view input);
 
   /**
+   * The port setter. When enforce_max_length is false the caller is
+   * responsible for checking the resulting href size (and for rolling back).
+   */
+  bool set_port_impl(std::string_view input, bool enforce_max_length);
+
+  /**
    * Return true on success.
    * @see https://url.spec.whatwg.org/#concept-ipv4-parser
    */
